@@ -38,6 +38,7 @@ type Case struct {
 	Mode   string            `json:"mode"`   // set | count
 	Append bool              `json:"append"` // -coverappend onto an existing profile from an earlier identical run
 	Stale  bool              `json:"stale"`  // (without -coverappend) a longer profile of some earlier, different run already exists at the path: it must be replaced, not overwritten in place
+	Flags  int               `json:"flags,omitempty"` // spelling and order of the two coverage options on the command line
 	Cut    int               `json:"cut,omitempty"` // > 0: one program file is additionally cut in two after a line that opens a body ("... {"), so a top-level item (and the blocks nested in it) continues in the next -f file
 }
 
@@ -72,7 +73,21 @@ func genCase(t *rapid.T) Case {
 	if rapid.IntRange(0, 2).Draw(t, "cut?") == 0 {
 		c.Cut = rapid.IntRange(1, 1000).Draw(t, "cut")
 	}
+	c.Flags = rapid.IntRange(0, 3).Draw(t, "flags")
 	return c
+}
+
+// coverFlags spells the two coverage options: either order, separate or joined with "="
+func coverFlags(form int, mode string) []string {
+	switch form {
+	case 1:
+		return []string{"-covermode", mode, "-coverprofile", "cover.out"}
+	case 2:
+		return []string{"-covermode=" + mode, "-coverprofile=cover.out"}
+	case 3:
+		return []string{"-coverprofile=cover.out", "-covermode=" + mode}
+	}
+	return []string{"-coverprofile", "cover.out", "-covermode", mode}
 }
 
 // cutFile splits one of the program texts after a line that opens the body of a rule, function or compound
@@ -370,7 +385,7 @@ func run(x *h.Ctx, c Case) string {
 		// output, exit status and message with coverage on, whether or not a profile gets written
 		dirE, _ := prepareDir(c.Files, texts)
 		defer os.RemoveAll(dirE)
-		eargs := append([]string{"-coverprofile", "cover.out", "-covermode", c.Mode}, fargs...)
+		eargs := append(coverFlags(c.Flags, c.Mode), fargs...)
 		cov := runCLI(dirE, append(eargs, c.Args...), string(c.Stdin), c.Files)
 		if cov.status == -1 {
 			x.Discard("CLI run timed out")
@@ -386,7 +401,7 @@ func run(x *h.Ctx, c Case) string {
 	// coverage run
 	dirB, _ := prepareDir(c.Files, texts)
 	defer os.RemoveAll(dirB)
-	cargs := append([]string{"-coverprofile", "cover.out", "-covermode", c.Mode}, fargs...)
+	cargs := append(coverFlags(c.Flags, c.Mode), fargs...)
 	cargs = append(cargs, c.Args...)
 	var first cliResult
 	if c.Stale && !c.Append {
